@@ -49,9 +49,11 @@ MANIFEST = {
     "text": ("Lean 4 theorems about a transition system of k threads drawing priorities under a discipline that is extracted from the source "
              "on every run: for the atomic-RMW, mutex and thread-local disciplines every schedule is equivalent to a serial one, no draw is "
              "lost or duplicated (shared cell: the chronological results are exactly the sequential stream) and a thread-local cell gives "
-             "every thread the sequential stream; for the unsynchronised load/store discipline a 2-thread schedule duplicates a draw and is "
-             "not serialisable. `c17 : Safe RngDiscipline.current` is stated over the generated discipline, so it stops compiling when the "
-             "source goes back to `static mut`. Tie: extractor + barrier-released stress threads against the model + Miri."),
+             "every thread the sequential stream; one level down, every interleaving of get/set, lock/read/write/unlock and load/CAS/retry "
+             "refines these one-step systems (mutual exclusion included); for the unsynchronised load/store discipline a 2-thread schedule "
+             "duplicates a draw and is not serialisable. `c17 : Safe RngDiscipline.current` is stated over the generated discipline, so it "
+             "stops compiling when the source goes back to `static mut`. Tie: extractor + barrier-released stress threads against the "
+             "model and the implementation's own sequential run + Miri."),
     "note": ("Partial: the hardware/compiler memory model is not modelled; data-race freedom of thread_local!/Mutex/atomics is Rust's guarantee "
              "(trusted); the extractor is a syntactic whitelist classifier; real schedules are sampled (stress, Miri), not enumerated."),
     "technique": "Lean 4 proof over a micro-step transition system + discipline extracted from source into a generated Lean file + thread stress harness + Miri",
@@ -306,8 +308,8 @@ def extract_lcg(repo):
 
 def render_generated(info):
     disc = info["discipline"]
-    decl = info.get("declaration", "").replace("-/", "- /")[:300]
-    acc = info.get("access", "").replace("-/", "- /")[:300]
+    decl = info.get("declaration", "").replace("-/", "- /").replace("/-", "/ -")[:300]
+    acc = info.get("access", "").replace("-/", "- /").replace("/-", "/ -")[:300]
     return f"""import RlibModel.Model.TreapConc
 /-!
 GENERATED by `checks/C17.py` (`extract`) from the source text of `rlib/treap/src/treap_node.rs`
@@ -354,6 +356,11 @@ def extract(repo):
             problems.append("treap_node.rs: the fetch_update closure does not use the multiplier/increment of `Rng` "
                             "(the atomic state would not follow the generator's transition)")
             params["discipline"] = info["discipline"] = "unknown"
+    if any("no longer a plain value type" in q for q in p2) and info["discipline"] in SAFE:
+        # the discipline of the cell says nothing if the generator itself keeps state elsewhere
+        problems.append("rand/src/lcg.rs keeps state outside the value (static/unsafe/cell/atomic tokens): the discipline found in "
+                        "treap_node.rs does not cover it — nothing is assumed")
+        params["discipline"] = info["discipline"] = "unknown"
     if info["discipline"] == "racy":
         # recognised, and recognised as the unsynchronised shape: c17 will not compile; say so up front
         problems.append("treap_node.rs: the priority generator is a `static mut` mutated in an unsynchronised `unsafe` block "
@@ -510,3 +517,21 @@ def extra(ctx):
         if r["status"] == "skipped":
             V.log("miri skipped: " + str(r["detail"])[:300])
     return findings
+
+
+def replay(ctx, rp):
+    """`./check C17 --replay f`: the generic code has already re-run the case lines through harness and driver; a Miri
+    finding is re-run here with the recorded seed (deterministic for a given -Zmiri-seed)."""
+    for c in rp.get("cases", []):
+        m = re.match(r"miri two-threads -Zmiri-seed=(\d+)", c.get("case", ""))
+        if not m:
+            continue
+        ok, note = miri_available()
+        if not ok:
+            print(f"miri replay skipped: {note}")
+            continue
+        crate_dir, _root = V.harness_dir(CRATE, ctx["repo"])
+        res = run_miri(os.path.join(crate_dir, "miri"), int(m.group(1)))
+        print(f"miri replay (seed {m.group(1)}): {res['status']}")
+        for line in (res["detail"] if isinstance(res["detail"], list) else [str(res["detail"])]):
+            print("  " + line)
